@@ -44,17 +44,19 @@ def main():
         sh(["git", "-C", scratch, "clean", "-fdq"])
         sh(["git", "-C", scratch, "checkout", "-q", "--detach", head])
         how = "git apply"
+        alt = os.path.join(D, n, "patch_head.diff")     # the same change re-created by hand on the current tree
         r = sh(["git", "-C", scratch, "apply", patch])
         if r.returncode != 0:
-            how = "git apply --3way"
-            r = sh(["git", "-C", scratch, "apply", "--3way", patch])
-            unmerged = sh(["git", "-C", scratch, "diff", "--name-only", "--diff-filter=U"]).stdout.strip()
-            if r.returncode != 0 or unmerged:
-                alt = os.path.join(D, n, "patch_head.diff")     # the same change re-created by hand on the current tree
+            sh(["git", "-C", scratch, "reset", "-q", "--hard"])
+            if os.path.exists(alt) and sh(["git", "-C", scratch, "apply", alt]).returncode == 0:
+                how = "patch_head.diff"
+            else:
+                how = "git apply --3way"
                 sh(["git", "-C", scratch, "reset", "-q", "--hard"])
-                if os.path.exists(alt) and sh(["git", "-C", scratch, "apply", alt]).returncode == 0:
-                    how = "patch_head.diff"
-                else:
+                r = sh(["git", "-C", scratch, "apply", "--3way", patch])
+                unmerged = sh(["git", "-C", scratch, "diff", "--name-only", "--diff-filter=U"]).stdout.strip()
+                if r.returncode != 0 or unmerged:
+                    sh(["git", "-C", scratch, "reset", "-q", "--hard"])
                     print(n, "PATCH DOES NOT APPLY to", head[:7], flush=True)
                     meta = json.load(open(mp)); meta["applies_to_head"] = False; json.dump(meta, open(mp, "w"), indent=1)
                     continue
